@@ -119,6 +119,14 @@ def gen_c04(rng, tier):
                 if k == kf:
                     for mn in BIG_MINS:
                         case.append("read %s 0x%x %d 1" % (k, (pe.image_base + s.va) & ((1 << pe.bits) - 1), mn))
+            # a sentinel-terminated array whose terminator is the very last element of the stored bytes (the usable
+            # extent ends WITH the last stored element, not one before it)
+            for s in pe.sections:
+                if s.data is not None and len(s.data) >= s.rs >= 16:
+                    for w_ in (1, 2, 4, 8):
+                        if s.rs % w_ == 0:
+                            sent = int.from_bytes(s.data[s.rs - w_:s.rs], "little")
+                            case.append("derva_slice_s %s u%d 0x%x %d" % (k, 8 * w_, (s.va + s.rs - w_ * rng.choice([1, 2, 3])) & U32, sent))
             for i in range(len(pe.sections) + 1):
                 case.append("secbytes %s %d" % (k, i))
             # "a request for more bytes than that never succeeds": typed arrays whose elements are larger than
@@ -409,6 +417,25 @@ def gen_c07(rng, tier):
         # `name()` / `name_bytes()` of every entry (interior NULs stay, trailing ones go, no UTF-8: the raw bytes)
         for i in range(min(len(pe.sections), 6) + 1):
             case.append("secname %s %d" % (rng.choice(ks), i))
+        cases.append(case)
+    # section extents that reach or pass 2^32 (the range accessors wrap like the lookups do)
+    for bits in (32, 64):
+        pe = PE(bits)
+        pe.file_align, pe.section_align = 0x200, 0x1000
+        pe.sections = [Section(b".text", va=0x1000, vs=0x200, prd=0x200, rs=0x200, data=rand_bytes(rng, 0x200)),
+                       Section(b".wrapv", va=0xFFFFF000, vs=0x2000, prd=0x400, rs=0, data=b""),
+                       Section(b".wrapf", va=0x3000, vs=0x10, prd=0xFFFFFF00, rs=0x200, data=None),
+                       Section(b".end", va=0xFFFFF000, vs=0x1000, prd=0xFFFFFE00, rs=0x200, data=None),
+                       Section(b".max", va=rng.choice([0xFFFFFFFF, 0x80000000]), vs=0xFFFFFFFF, prd=0xFFFFFFFF, rs=0xFFFFFFFF, data=None)]
+        pe.size_of_image = 0x4000
+        data = pe.build()
+        case = [img_line(rng, data)]
+        for k in ("f%d" % bits, "v%d" % bits, "wf"):
+            case.append("from_bytes " + k)
+            for i in range(6):
+                case.append("secname %s %d" % (k, i))
+            for r in (0xFFFFF000, 0xFFFFFFFF, 0, 0xFFF, 0x1000, 0x3000, 0x300F, 0x3010, 0x80000000):
+                case.append("byrva %s 0x%x" % (k, r))
         cases.append(case)
     # tiny buffers
     for L in (0, 1, 63, 64, 65):
@@ -735,6 +762,10 @@ def gen_c06(rng, tier):
             q.append(("derva_slice_s %s u16 0x%x 0", r)); q.append(("slice %s 0x%x 1 1", r))
             # where the file stores the byte of this RVA (the conversion both representations offer)
             q.append(("r2f %s 0x%x", r))
+            if pe.bits == 64 and len(q) % 5 == 0:
+                # a virtual address 2^32 (or a multiple) above one inside the image is outside it in both representations
+                hi = (pe.image_base + (rng.choice([1, 1, 2, 0x7FFF]) << 32) + r) & ((1 << 64) - 1)
+                q.append(("read %s 0x%x 1 1", hi)); q.append(("deref_copy %s u32 0x%x", hi))
             for pr in slice_f_preds(rng, pe, r, 2, 1):
                 q.append(("derva_slice_f %%s u16 0x%%x %s" % pr, r))
             # the VA twins (same bytes through ImageBase + rva): sentinel arrays that end exactly where the
